@@ -138,6 +138,12 @@ def cycLoop (n : Nat) (preds : SMap (List Nat)) (sgIdx : SMap Nat) (lo hi u v : 
     | (uf', _, _, true) => (uf', .cyc)
     | (uf', stack', visited', false) => cycLoop n preds sgIdx lo hi u v fuel stack' visited' uf'
 
+/-- `self.enemies.get(u).is_some_and(|enemy_set| enemy_set.contains(&v))` -/
+def enemyHas (e : SMap (List Nat)) (u v : Nat) : Bool :=
+  match e u with
+  | some s => s.contains v
+  | none => false
+
 /-- `for w in self.enemies.remove(v).into_iter().flatten() { … }` -/
 def mergeEnemiesLoop (u v : Nat) : List Nat → SMap (List Nat) → SMap (List Nat)
   | [], e => e
@@ -216,7 +222,7 @@ def SM.tryMerge (sm : SM) (u0 v0 : Nat) : SM × MergeOut :=
   let v1 := r2.2
   let uf0 := r2.1
   if u1 = v1 then ({ sm with uf := uf0 }, .merged)
-  else if (match sm.enemies u1 with | some s => s.contains v1 | none => false) then
+  else if enemyHas sm.enemies u1 v1 then
     ({ sm with uf := uf0 }, .refused)
   else
     let u := if getN sm.sgIdx u1 < getN sm.sgIdx v1 then u1 else v1
